@@ -39,6 +39,23 @@ def urlencoded_pairs(q: bytes):
     return out
 
 
+_CHARSET = re.compile(r'charset\s*=\s*"?([A-Za-z0-9_.:-]+)"?', re.I)
+
+
+def form_bytes(content_type: str, body: bytes) -> bytes:
+    """The octets of a urlencoded form as an ASCII-compatible byte string: a body in a declared UTF-16 / UTF-32
+    encoding is transcoded to UTF-8 first (every other declared charset is ASCII-compatible for the characters the
+    format itself uses, so its bytes are taken as they are)."""
+    m = _CHARSET.search(content_type or "")
+    cs = m.group(1).lower().replace("_", "-") if m else ""
+    if cs.startswith(("utf-16", "utf16", "utf-32", "utf32", "ucs-2", "ucs-4")):
+        try:
+            return body.decode(cs).encode("utf-8", "surrogatepass")
+        except (UnicodeError, LookupError):
+            return b"<undecodable:" + cs.encode() + b">" + body
+    return body
+
+
 def split_target(path: bytes):
     """request-target (origin form) -> (path part, ';params' of the last segment, query or None, fragment or None)."""
     frag = None
